@@ -585,6 +585,12 @@ class ExprMixin:
             for s in base.star:
                 if isinstance(s, ParserV) and isinstance(idx, str) and idx in s.keys:
                     return s.keys[idx]
+            if fr is not None and base.complete and not base.star and base.pairs and not is_const(idx) and not isinstance(idx, EnumMember) and \
+                    all(isinstance(k, EnumMember) for k, _ in base.pairs) and not self.table_is_total(base) and \
+                    ('#key of %s' % show(idx)) not in fr.nonempty:
+                # a table spelled out in the source, keyed by members of one enumeration but not by all of them, looked up with a
+                # value of the run: a member the table leaves out raises KeyError (``if / else`` had an implicit else, a table has none)
+                self.risk(fr, 'tablekey', ('builtins.KeyError',), Sym('tablekey', idx), node)
             return Sym('index', base, idx)
         if is_const(base) and is_const(idx) and isinstance(base, (str, bytes)) and isinstance(idx, int):
             try:
@@ -592,6 +598,18 @@ class ExprMixin:
             except IndexError:
                 return Sym('index', base, idx)
         return Sym('index', base, idx)
+
+    @staticmethod
+    def table_is_total(table):
+        """the keys of a literal table are all the members of the enumeration they belong to"""
+        classes = {id(k.cls): k.cls for k, _ in table.pairs}
+        if len(classes) != 1:
+            return False
+        cls = list(classes.values())[0]
+        members = getattr(cls, 'enum_members', None)
+        if not members:
+            return False
+        return {k.name for k, _ in table.pairs} >= set(members)
 
     @staticmethod
     def index_known(base, idx, fr):
